@@ -139,6 +139,8 @@ impl Fb<'_, '_> {
             if o.loops && self.depth < 2 { 2 } else { 0 },         // 13 loop
             if o.early_return && !self.is_main && self.depth >= 1 && self.depth < 3 { 1 } else { 0 }, // 14
             if o.sp_arith { 2 } else { 0 },                        // 15 arithmetic on sp copies
+            4,                                                     // 16 constant folding chain on boundary values
+            1,                                                     // 17 arithmetic write to the zero register
         ];
         match self.ch.weighted(&w) {
             0 => {
@@ -394,6 +396,42 @@ impl Fb<'_, '_> {
                 self.emit(ins("beqz", vec![r(a), Opd::L(skip.clone())]));
                 self.epilogue();
                 self.emit(Line::Label(skip));
+            }
+            16 => {
+                // two known constants through every operator (boundary operands included)
+                let a = self.wreg();
+                let b = self.wreg();
+                let d = self.wreg();
+                let (ca, cb) = (*self.ch.pick(&CONSTS), *self.ch.pick(&CONSTS));
+                self.emit(ins("li", vec![r(a), i(ca)]));
+                self.emit(ins("li", vec![r(b), i(cb)]));
+                let op = self.ch.pick_str(&syn::ARITH);
+                self.emit(ins(op, vec![r(d), r(a), r(b)]));
+                if self.ch.chance(1, 2) {
+                    let op2 = self.ch.pick_str(&syn::ARITH);
+                    let e = self.wreg();
+                    self.emit(ins(op2, vec![r(e), r(d), r(b)]));
+                }
+            }
+            17 => {
+                let a = self.rreg();
+                match self.ch.below(3) {
+                    0 => {
+                        let k = self.ch.int_in(-8, 8);
+                        self.emit(ins("addi", vec![r(ZERO), r(a), i(k)]));
+                    }
+                    1 => {
+                        let b = self.rreg();
+                        self.emit(ins("add", vec![r(ZERO), r(a), r(b)]));
+                    }
+                    _ => {
+                        let c = *self.ch.pick(&CONSTS);
+                        self.emit(ins("li", vec![r(ZERO), i(c)]));
+                    }
+                }
+                // and a use of zero afterwards
+                let d = self.wreg();
+                self.emit(ins("addi", vec![r(d), r(ZERO), i(1)]));
             }
             _ => {
                 // arithmetic on copies of sp
